@@ -26,6 +26,8 @@ Translated (every piece is pure dispatch / bookkeeping logic; numerical content 
                              (PPhysical / PEq / PIneq / PSelf)
   G4  the call skeletons of ProbabilityBasedLossFunction.set_from_standard_qtomography_option_data and of the loop of
       LossMinimizationEstimator.calc_estimate_sequence (see g4)
+  G5  _copy of State / Gate / Povm / MProcess (deep-copied vs passed-through members), QOperation.copy / MProcess.copy (see g5)
+  G6  purity of every @property getter of 26 source files (see g6)
 Anything that does not match the expected shape makes the translator FAIL (exit 1): nothing is skipped silently."""
 import ast, os, sys
 
@@ -402,12 +404,101 @@ def g4(repo):
                 lst(seq1), lst(seq2), lst(calls_in(b[:pos])), lst(calls_in(b[pos + 1:]))))
 
 
+# ------------------------------------------------------------------------------------------------ G5 / G6
+def g5(repo):
+    """_copy of State / Gate / Povm / MProcess: which members are handed to the new object deep-copied (`copy.deepcopy(self.x)`) and
+    which are passed through (`self.x`):   gen_copy_<Class> : list (string * bool)   (member, deep-copied?)
+    QOperation.copy: gen_copy_uses_private_copy = the value of the new object is `self._copy()` and the object is built by
+    `self.__class__(...)`; MProcess.copy likewise takes all its values from `self._copy()`"""
+    out = ""
+    for rel, cname in (("quara/objects/state.py", "State"), ("quara/objects/gate.py", "Gate"), ("quara/objects/povm.py", "Povm"), ("quara/objects/mprocess.py", "MProcess")):
+        fn = methods(find_class(parse(repo, rel), cname))["_copy"]
+        b = body_nodoc(fn)
+        need(len(b) == 1 and isinstance(b[0], ast.Return) and b[0].value is not None, "%s._copy is not a single return statement" % cname)
+        elems = b[0].value.elts if isinstance(b[0].value, ast.Tuple) else [b[0].value]
+        items = []
+        for e in elems:
+            if isinstance(e, ast.Call) and isinstance(e.func, ast.Attribute) and e.func.attr == "deepcopy" and isinstance(e.func.value, ast.Name) \
+                    and e.func.value.id == "copy" and len(e.args) == 1 and self_attr(e.args[0]):
+                items.append((self_attr(e.args[0]), "true"))
+            elif self_attr(e):
+                items.append((self_attr(e), "false"))
+            else:
+                raise Reject("%s._copy returns something that is neither copy.deepcopy(self.x) nor self.x" % cname)
+        out += "Definition gen_copy_%s : list (string * bool) := [%s].\n" % (cname, "; ".join('("%s", %s)' % it for it in items))
+
+    def uses_copy(fn):
+        b = body_nodoc(fn)
+        asg = [st for st in b if isinstance(st, ast.Assign) and isinstance(st.value, ast.Call) and self_attr(st.value.func) == "_copy" and not st.value.args]
+        if len(asg) != 1:
+            return False
+        names = set()
+        for t in asg[0].targets:
+            for n in ast.walk(t):
+                if isinstance(n, ast.Name):
+                    names.add(n.id)
+        # the constructor call of the new object receives the copied values by name
+        ctor = [n for st in b for n in ast.walk(st) if isinstance(n, ast.Call) and ((isinstance(n.func, ast.Attribute) and n.func.attr == "__class__" and self_attr(n.func) == "__class__")
+                                                                                   or (isinstance(n.func, ast.Name) and n.func.id[:1].isupper()))]
+        if len(ctor) != 1:
+            return False
+        passed = {a.id for a in ctor[0].args if isinstance(a, ast.Name)} | {k.value.id for k in ctor[0].keywords if isinstance(k.value, ast.Name)}
+        return names <= passed and bool(names)
+    q_copy = methods(find_class(parse(repo, "quara/objects/qoperation.py"), "QOperation"))["copy"]
+    m_copy = methods(find_class(parse(repo, "quara/objects/mprocess.py"), "MProcess"))["copy"]
+    out += "Definition gen_copy_uses_private_copy : bool := %s.\n" % ("true" if uses_copy(q_copy) and uses_copy(m_copy) else "false")
+    return out
+
+
+GETTER_FILES = ["quara/objects/qoperation.py", "quara/objects/state.py", "quara/objects/gate.py", "quara/objects/povm.py", "quara/objects/mprocess.py",
+                "quara/objects/multinomial_distribution.py", "quara/objects/state_ensemble.py", "quara/objects/elemental_system.py", "quara/objects/matrix_basis.py",
+                "quara/objects/qoperations.py", "quara/qcircuit/experiment.py", "quara/protocol/qtomography/qtomography.py",
+                "quara/protocol/qtomography/standard/standard_qtomography.py", "quara/protocol/qtomography/standard/standard_qst.py",
+                "quara/protocol/qtomography/standard/standard_povmt.py", "quara/protocol/qtomography/standard/standard_qpt.py",
+                "quara/protocol/qtomography/standard/standard_qmpt.py", "quara/loss_function/loss_function.py", "quara/loss_function/probability_based_loss_function.py",
+                "quara/loss_function/weighted_probability_based_squared_error.py", "quara/loss_function/weighted_relative_entropy.py",
+                "quara/loss_function/standard_qtomography_based_weighted_probability_based_squared_error.py",
+                "quara/loss_function/standard_qtomography_based_weighted_relative_entropy.py", "quara/minimization_algorithm/minimization_algorithm.py",
+                "quara/minimization_algorithm/projected_gradient_descent.py", "quara/minimization_algorithm/projected_gradient_descent_backtracking.py"]
+
+
+def g6(repo):
+    """every @property getter of the object / tomography / loss / algorithm classes is a PURE READ: its body contains no assignment
+    whose target is (a subscript / attribute of) `self.*`, no `del`, and no call of a `self.set*` / `self._set*` / `self._calc*` / `setattr`:
+         gen_getters_scanned : nat         number of getters looked at
+         gen_impure_getters : list string  "Class.property" of the getters that write
+    (CompositeSystem is not in this list: its lazily building getters are the subject of G1)"""
+    impure, count = [], 0
+    for rel in GETTER_FILES:
+        for cls in [n for n in parse(repo, rel).body if isinstance(n, ast.ClassDef)]:
+            for fn in [n for n in cls.body if isinstance(n, ast.FunctionDef)]:
+                if not any(isinstance(d, ast.Name) and d.id == "property" for d in fn.decorator_list):
+                    continue
+                count += 1
+                bad = False
+                for n in ast.walk(fn):
+                    tg = n.targets if isinstance(n, (ast.Assign, ast.Delete)) else [n.target] if isinstance(n, (ast.AugAssign, ast.AnnAssign)) else []
+                    for t in tg:
+                        for x in ast.walk(t):
+                            if isinstance(x, ast.Name) and x.id == "self":
+                                bad = True
+                    if isinstance(n, ast.Call):
+                        a = self_attr(n.func)
+                        if (a and (a.startswith("set") or a.startswith("_set") or a.startswith("_calc") or a.startswith("reset"))) or \
+                                (isinstance(n.func, ast.Name) and n.func.id in ("setattr", "delattr")):
+                            bad = True
+                if bad:
+                    impure.append("%s.%s" % (cls.name, fn.name))
+    need(count >= 60, "only %d property getters found - the scan does not see the classes any more" % count)
+    return "Definition gen_getters_scanned : nat := %d.\nDefinition gen_impure_getters : list string := [%s].\n" % (count, "; ".join('"%s"' % x for x in impure))
+
+
 def main():
     repo, outp = sys.argv[1], sys.argv[2]
     try:
         text = "(* GENERATED by gen/c13_py2coq.py from %s - do not edit *)\nFrom Coq Require Import List String Bool.\nFrom QV.Model Require Import C13_Cache.\nImport ListNotations.\nOpen Scope string_scope.\n\n" % repo
         text += "Inductive gaction := GKeep | GReset | GCustom | GInv (unbiased : bool).\nInductive gproj := PPhysical | PEq | PIneq | PSelf.\n\n"
-        text += g1(repo) + "\n" + g2(repo) + "\n" + g3(repo) + "\n" + g4(repo)
+        text += g1(repo) + "\n" + g2(repo) + "\n" + g3(repo) + "\n" + g4(repo) + "\n" + g5(repo) + "\n" + g6(repo)
     except Reject as e:
         print("REJECT: %s" % e)
         sys.exit(1)
